@@ -644,6 +644,12 @@ class PhaseField(_Simu):
         if self.phaseFieldModel.solver == self.phaseFieldModel.SolverType.History:
             # update old history field for next resolution
             self.__old_psiP_e_pg = dict(self.__psiP_e_pg)
+            # the history field is an internal variable: it is stored with the iteration so
+            # that Set_Iter brings it back (copied, later steps must not reach the saved one)
+            iter["psiP_history"] = {
+                elemType: np.array(psiP_e_pg)
+                for elemType, psiP_e_pg in self.__old_psiP_e_pg.items()
+            }
 
         iter["displacement"] = self.displacement
         iter["damage"] = self.damage
@@ -665,6 +671,15 @@ class PhaseField(_Simu):
         # damage and displacement field will change thats why we need to update the assembled matrices
         self.__updatedDamage = False
         self.__updatedDisplacement = False
+
+        isHistory = self.phaseFieldModel.solver == self.phaseFieldModel.SolverType.History
+        if isHistory and not resetAll and "psiP_history" in results:
+            # restore the history field saved with the iteration
+            self.__old_psiP_e_pg = {
+                elemType: FeArray.asfearray(psiP_e_pg.copy())
+                for elemType, psiP_e_pg in results["psiP_history"].items()
+            }
+            self.__psiP_e_pg = dict(self.__old_psiP_e_pg)
 
         if (
             resetAll
